@@ -27,10 +27,10 @@ def run(ctx):
     pscommon.negative_control(ctx, vec, base)
     # longer programs: seeded random walks in which the environment feeds tokens that the
     # specification says are in the operators' domains (MC_PSProg family feed)
-    n = 1500 if ctx.tier == "quick" else 40000
+    n = 1500 if ctx.tier == "quick" else 20000  # measured: 25 programs per second, one worker
     consts = {"Tier": '"quick"', "StepBound": "400", "MaxBudget": "1", "FeedLen": "24", "Family": '"feed"'}
     s2, _, _ = pscommon.run_mbt(ctx, "MC_PSProg", consts, "psfeed", base_heap="FreshHeap", invariants=("Emit", "Inv"),
-                                simulate=n, depth=200, workers=1)
+                                simulate=n, depth=200, workers=1, timeout=3000)
     pscommon.absorb(ctx, s2, "vh replay-ps (MC_PSProg feed, simulation seed %d)" % ctx.seed, "PSMachine!Step on fed programs")
     ctx.extra["fed_programs"] = s2["vectors"]
     ctx.extra["fed_programs_ending_ok"] = s2["expect_ok"]
